@@ -86,6 +86,21 @@ func genC03(t *rapid.T) C03Case {
 		lab["exclude-files-with-same-definition-name"] = true
 		lab["include-except"] = true
 	}
+	// definitions whose expansion order is visible in the result: a value that completes a reference only after
+	// another expansion, definitions that refer to each other, a reference to a name defined later
+	if rapid.IntRange(0, 4).Draw(t, "orderdefs") == 0 {
+		set := rapid.SampledFrom([][]string{
+			{"##!> define a {{", "##!> define b x", "{{a}}b}}"},
+			{"##!> define a {{b}}1", "##!> define b {{a}}2", "x{{a}}y{{b}}"},
+			{"##!> define p {{q}}{{r}}", "##!> define q {{r}}-", "##!> define r z", "{{p}}|{{q}}"},
+			{"##!> define o }}", "##!> define i {{x", "##!> define x y", "{{i}}{{o}}"},
+			{"##!> define s {{s}}s", "{{s}}"},
+		}).Draw(t, "orderdefset")
+		for _, l := range set {
+			g.Prog.Main = append(g.Prog.Main, ragen.Line{K: ragen.KRaw, T: l})
+		}
+		lab["definitions-whose-expansion-order-shows"] = true
+	}
 	// the same file name in include/ and in exclude/ with different content: the documented search order decides, every time
 	if rapid.IntRange(0, 3).Draw(t, "shadow") == 0 {
 		var names []string
@@ -233,7 +248,7 @@ func checkC03(c C03Case) Outcome {
 	mapDriven := false
 	for _, l := range c.Lab {
 		switch l {
-		case "suffix-pairs", "defs", "include-except", "ambiguous-line", "def-nested", "exclude-files-with-same-definition-name":
+		case "suffix-pairs", "defs", "include-except", "ambiguous-line", "def-nested", "exclude-files-with-same-definition-name", "definitions-whose-expansion-order-shows":
 			mapDriven = true
 		}
 	}
